@@ -23,21 +23,29 @@ def write_cfg(shared, base, name):
 
 def model(ctx):
     fns = ompparse.parse()
-    if len(fns) < 6:
-        raise RuntimeError("expected six parallel loops in dd_dtw_openmp.c, found %d" % len(fns))
     ctx.extra["parallel_loops"] = fns
+    if not fns:
+        ctx.log("no '#pragma omp parallel for' found in dd_dtw_openmp.c: nothing to derive from the source")
     bases = ["ParallelDM_q2.cfg", "ParallelDM_q3.cfg"] if ctx.quick else ["ParallelDM_q2.cfg", "ParallelDM_t.cfg"]
     seen = {}
     for f in fns:
-        unknown = [v for v in f["shared"] if v not in ompparse.NAMES]
-        if unknown:
-            path = core.write_replay(ctx, "shared-%s" % f["function"], {"property": PID, "function": f,
-                                     "why": "scalars assigned in the parallel loop body are neither private nor "
-                                            "declared inside it: " + ", ".join(unknown)})
-            ctx.violations.append(("%s: shared scalars %s assigned in the parallel loop" % (f["function"], unknown), path))
+        if f.get("unparsed"):
             continue
-        key = tuple(sorted(f["shared"]))
+        if f["benign"]:
+            ctx.log("%s: shared scalars %s are write-only or loop-invariant (noted, not a violation)"
+                    % (f["function"], f["benign"]))
+        if f["harmful"]:
+            path = core.write_replay(ctx, "shared-%s" % f["function"], {"property": PID, "function": f,
+                                     "why": "scalars assigned from per-iteration state and read in the parallel loop "
+                                            "body are neither privatised nor declared inside it: "
+                                            + ", ".join(f["harmful"])})
+            ctx.violations.append(("%s: shared scalars %s written from per-iteration state and read in the parallel "
+                                   "loop" % (f["function"], f["harmful"]), path))
+            continue
+        key = tuple(sorted(v for v in f["shared"] if v in ompparse.NAMES))
         seen.setdefault(key, []).append(f["function"])
+    if not seen and not ctx.violations:
+        seen[()] = ["(no parallel loop parsed: the design with nothing shared)"]
     for key, names in seen.items():
         for base in bases:
             cfg = write_cfg(key, base, "PDM-%s-%s" % ("_".join(key) or "none", base))
@@ -99,7 +107,9 @@ RULE = ("model: TLC explores all interleavings of the row-parallel loop (threads
         "buffers of exactly the advertised length between canaries, the real dtw_distances_prepare plan, and the "
         "multiprocessing branches with a pool whose tasks complete in seeded random orders (and a real Pool); and the "
         "REAL loop bodies linked against a deterministic scheduler (native/gomp_shim.c) instead of libgomp, executed "
-        "under all row permutations x thread assignments for blocks of <= 3 rows and seeded schedules beyond; every "
+        "under all row permutations x thread assignments for blocks of <= 3 rows and seeded schedules beyond "
+        "(iteration-granular), and with scheduling points before and after every kernel call under strict "
+        "round-robin / reverse round-robin / seeded thread choices (cell-granular); every "
         "output must equal the serial routine and the specification element for element; non-trivial = block given")
 
 
@@ -126,9 +136,20 @@ def run(ctx):
     src = build.py_build()
     model(ctx)
     dm_pass(ctx, src, items(ctx), "run_c07")
-    its = shim_items(ctx)
-    dm_pass(ctx, src, its, "run_c07_shim")
-    ctx.extra["shim_schedules_executed"] = sum(it["_rec"].get("schedules", 0) for it in its)
+    # binding 3 needs the loops to compile against the entry points the shim provides (gcc's GOMP_* calls for
+    # the schedule kinds of OpenMP 4.5); if the file was restructured beyond that the binding is skipped and
+    # noted -- the real-thread runs above still decide the property on samples.
+    try:
+        build.native_lib("shim")
+        shim_ok = True
+    except RuntimeError as e:
+        shim_ok = False
+        ctx.extra["shim"] = "unavailable: %s" % str(e)[:300]
+        ctx.log("GOMP shim could not be built; binding 3 skipped")
+    if shim_ok:
+        its = shim_items(ctx)
+        dm_pass(ctx, src, its, "run_c07_shim")
+        ctx.extra["shim_schedules_executed"] = sum(it["_rec"].get("schedules", 0) for it in its)
     return core.finish(ctx)
 
 
